@@ -183,6 +183,27 @@ impl Prop for C16 {
       }
       out.push(Case { id: format!("match;array;{}", name), cell: format!("match;array;{}", name), input: json!({"mode": "arms", "def": J::Null, "calls": calls, "as_match": true, "has_wild": true}) });
     }
+    // FUNCTION arms with array patterns whose variables are named like the parameter, subscripted or used whole in the body:
+    // inside the arm the name denotes the matched part, not the argument
+    for (name, def, f) in [
+      ("tail-subscript", "second(xs<[u64]>) => <u64>\n  | [x | xs] => xs[1]\n  | * => 999u64.", (|v: &Vec<u64>| if v.len() >= 2 { v[1] } else { 999 }) as fn(&Vec<u64>) -> u64),
+      ("tail-subscript-renamed", "secondr(xs<[u64]>) => <u64>\n  | [x | rest] => rest[1]\n  | * => 999u64.", |v: &Vec<u64>| if v.len() >= 2 { v[1] } else { 999 }),
+      ("head-same-name", "firstx(xs<[u64]>) => <u64>\n  | [xs …] => xs + 1u64\n  | * => 999u64.", |v: &Vec<u64>| if !v.is_empty() { v[0] + 1 } else { 999 }),
+      ("last-subscript-prefix", "lastp(xs<[u64]>) => <u64>\n  | [a, b | xs] => a * 100u64 + xs[1]\n  | * => 999u64.", |v: &Vec<u64>| if v.len() >= 3 { v[0] * 100 + v[2] } else { 999 }),
+    ] {
+      let fname = def.split('(').next().unwrap();
+      let mut calls = Vec::new();
+      for (ci, v) in [vec![10u64, 20, 30], vec![4, 5], vec![1, 2, 3, 4, 5], vec![6, 7, 8, 9]].iter().enumerate() {
+        // ([a, b | xs] matches a two-element vector with an empty tail, whose first element does not exist)
+        if name == "last-subscript-prefix" && v.len() == 2 { continue; }
+        let lit = format!("[{}]", v.iter().map(|x| format!("{}u64", x)).collect::<Vec<_>>().join(" "));
+        calls.push(json!({"src": format!("{}({})", fname, lit), "expect": f(v), "args": v}));
+        calls.push(json!({"src": format!("{}(xs{})", fname, ci), "expect": f(v), "args": v, "prelude": format!("xs{} := {}", ci, lit)}));
+      }
+      // a global named like the parameter holds another vector
+      calls.push(json!({"src": format!("{}([1u64 2u64 3u64])", fname), "expect": f(&vec![1, 2, 3]), "args": [1, 2, 3], "prelude": "xs := [70u64 80u64 90u64]"}));
+      out.push(Case { id: format!("function;array;{}", name), cell: format!("function;array;{}", name), input: json!({"mode": "arms", "def": def, "calls": calls, "as_match": false, "has_wild": true}) });
+    }
     // enum variants with payload: exhaustive without wildcard, every arm order
     for (i, order) in permutations(&[":red(v) => 100u64 + v", ":green(v) => 200u64 + v", ":blue => 300u64"]).into_iter().enumerate() {
       let mut calls = Vec::new();
@@ -245,6 +266,9 @@ impl Prop for C16 {
       ("no-matching-arm", "only-zero(x<u64>) => <u64>\n  | 0 => 1.", "only-zero(3u64)"),
       ("no-matching-arm-tuple", "only-diag(x<u64>, y<u64>) => <u64>\n  | (0, 0) => 1\n  | (1, 1) => 2.", "only-diag(0u64, 1u64)"),
       ("match-without-wildcard", "", "r := 2u64?\n  | 1 => 300u64."),
+      ("enum-function-foreign-tag-arm", "<color> := :red | :green | :blue\ncode(c<color>) => <u64>\n  | :red => 1u64\n  | :green => 2u64\n  | :teal => 3u64.", "code(:green)"),
+      ("enum-function-missing-variant", "<color> := :red | :green | :blue\ncodem(c<color>) => <u64>\n  | :red => 1u64\n  | :green => 2u64.", "codem(:green)"),
+      ("enum-match-foreign-tag-arm", "<color> := :red | :green | :blue", "c<color> := :green\nr := c?\n  | :red => 1u64\n  | :green => 2u64\n  | :teal => 3u64."),
       ("enum-match-missing-variant", "<color> := :red<u64> | :green<u64> | :blue", "c<color> := :blue\nr := c?\n  | :red(v) => v\n  | :green(v) => v."),
     ] { out.push(Case { id: format!("error;{}", name), cell: format!("error;{}", name), input: json!({"mode": "error", "def": def, "src": src}) }); }
     out
